@@ -52,11 +52,9 @@ pub struct Outcome {
 
 fn init_text(i: &(usize, usize, usize)) -> String { format!("init,{},{},{}", i.0, i.1, i.2) }
 
-/// `<producers>` part of the signature `sched:<producers>:<violated invariant>`; runs that start the
-/// ring indices just below the usize wrap-around with a capacity that does not divide 2^64 are a
-/// class of their own (known finding: the slot index `tail % capacity` jumps at the wrap).
+/// `<producers>` part of the signature `sched:<producers>:<violated invariant>`
 pub fn sig_tag(i: &(usize, usize, usize)) -> String {
-    if !i.0.is_power_of_two() && i.1 >= usize::MAX - 4096 { "wrap-npot".into() } else { i.2.to_string() }
+    i.2.to_string()
 }
 
 /// Property oracles on one finished schedule (independent of the model).
@@ -240,8 +238,9 @@ pub fn programs(thorough: bool, rng: &mut Rng) -> Vec<(Program, usize, usize)> {
     v.push((p("3p-mixed", (3, 0, 3), vec![vec![Op::Send(vec![1, 2])], vec![Op::TrySend(1), Op::DropSrc], vec![s1(1), s1(2)]], vec![Op::Recv, Op::Recv], vec![Op::Stop]), 0, 300 * k));
     // index wrap-around of the ring (power-of-two capacity: harmless; see NOTES for capacity 3)
     v.push((p("wrap-cap2", (2, usize::MAX - 1, 1), vec![vec![Op::Send(vec![1, 2, 3])]], vec![Op::Recv, Op::Recv], vec![]), 0, 100 * k));
-    // KNOWN FINDING (wrap-npot): capacity 3 across the index wrap-around — one sequential schedule
-    v.push((p("wrap-npot-cap3", (3, usize::MAX - 2, 1), vec![vec![s1(1), s1(2), s1(3), s1(4)]], vec![Op::Recv, Op::Recv, Op::Recv, Op::Recv], vec![]), 0, 0));
+    // regression for the fixed finding `wrap-npot`: capacity 3 across the index wrap-around (sequential + random)
+    v.push((p("wrap-npot-cap3", (3, usize::MAX - 2, 1), vec![vec![s1(1), s1(2), s1(3), s1(4)]], vec![Op::Recv, Op::Recv, Op::Recv, Op::Recv], vec![]), 0, 150 * k));
+    v.push((p("wrap-cap5-2p", (5, usize::MAX - 3, 2), vec![vec![Op::Send(vec![1, 2, 3])], vec![s1(1), Op::TrySend(2), s1(3)]], vec![Op::Recv, Op::Recv, Op::Recv], vec![]), 0, 150 * k));
     // random programs
     let nrand = if thorough { 120 } else { 20 };
     for i in 0..nrand {
@@ -266,7 +265,7 @@ pub fn programs(thorough: bool, rng: &mut Rng) -> Vec<(Program, usize, usize)> {
         while prods.len() < MAX_PROD { prods.push(vec![s1(50)]); } // only reachable through a clone
         let cons = (0..rng.range(0, 3)).map(|_| Op::Recv).collect();
         let stop = if rng.chance(1, 4) { vec![Op::Stop] } else { vec![] };
-        let start = if cap.is_power_of_two() && rng.chance(1, 5) { usize::MAX - rng.below(3) as usize } else { 0 };
+        let start = if rng.chance(1, 4) { usize::MAX - rng.below(6) as usize } else { 0 };
         v.push((p(&format!("rand{i}"), (cap, start, nprod), prods, cons, stop), 0, if thorough { 60 } else { 25 }));
     }
     v
